@@ -26,6 +26,7 @@ Alpha == <<
   "li a7, 5\n    ecall", "li a7, 1\n    ecall", "li a7, 9\n    ecall",
   "call F", "mv a0, t0\n    call F",
   "beqz t0, K", "bnez a0, K", "j K",
+  "jal t1, K", "li t1, 5\n    jal t1, K",
   "bgez t0, K", "bge t0, zero, K", "bltz t0, K", "bgeu t0, zero, K", "bltu zero, t0, K", "ble zero, t0, K" >>
 NA == Len(Alpha)
 
